@@ -41,6 +41,9 @@ func coreC19(tier string) []RunSpec {
 	out = append(out, RunSpec{Profile: "core:restore-continue-rot", Params: map[string]int{"scenario": 1, "rot": 1}})
 	out = append(out, RunSpec{Profile: "core:many-outputs", Params: map[string]int{"scenario": 2}})
 	out = append(out, RunSpec{Profile: "core:many-outputs-then-rotation", Params: map[string]int{"scenario": 2, "rot": 1}})
+	// everything spent, then restore, continue, restore
+	out = append(out, RunSpec{Profile: "core:spend-all-restore", Params: map[string]int{"scenario": 4, "fee": 0}})
+	out = append(out, RunSpec{Profile: "core:melt-all-restore", Params: map[string]int{"scenario": 4, "melt": 1, "fee": 0}})
 	// known finding: SIG_ALL token from an untrusted mint, swap-to-trusted fails, received again
 	out = append(out, RunSpec{Profile: "core:sigall-crossmint-again", Params: map[string]int{"scenario": 3, "mints": 2, "fee": 0}})
 	return out
@@ -80,6 +83,9 @@ func runC19(rc *RunCtx) {
 		return
 	case 2:
 		c19ManyOutputs(ww, rc.P("rot", 0) == 1)
+		return
+	case 4:
+		c19SpendAllRestore(ww, rc.P("melt", 0) == 1)
 		return
 	case 3:
 		// the 1 sat token cannot be moved across (fees), so the swap-to-trusted receive fails after
@@ -279,6 +285,69 @@ func c19RestoreContinue(ww *WW, rotate bool) {
 	}
 	ww.Settle()
 	ww.restoreWallet(ww.Wallets[0], false, "final")
+}
+
+// c19SpendAllRestore: the wallet spends everything it has (the last used batch of counters holds only
+// spent proofs), is restored from the mnemonic, and the restored wallet continues: its stored
+// counter must be past everything the mint signed, so the next operation reuses nothing.
+func c19SpendAllRestore(ww *WW, viaMelt bool) {
+	w, other := ww.Wallets[0], ww.Wallets[1]
+	mint := mintNameOfURL(ww.node(w).Mint)
+	ww.step = 0
+	bal := ww.balanceAt(w, mint)
+	if bal < 4 {
+		return
+	}
+	if viaMelt {
+		// melt as much as the fee reserve allows, then hand over the rest
+		inv := ww.W.LN.NewExternalInvoice((bal - bal/8 - 2) * 1000)
+		ww.op("w.melt(all)")
+		ww.W.WalletOp(w, ww.name("meltall"), nil, func(wl *wallet.Wallet) {
+			if q, e := wl.RequestMeltQuote(inv.Bolt11, ww.mintURL(mint)); e == nil {
+				wl.Melt(q.Quote)
+			}
+		})
+	}
+	// send the whole remaining balance (no fees on this keyset: core scenario runs with fee 0)
+	if rest := ww.balanceAt(w, mint); rest > 0 {
+		var ps cashu.Proofs
+		var err error
+		ww.op("w.send fees=false")
+		ww.W.WalletOp(w, ww.name("sendall"), nil, func(wl *wallet.Wallet) { ps, err = wl.Send(rest, ww.mintURL(mint), false) })
+		if err == nil {
+			s, _ := MakeToken(ps, ww.mintURL(mint), false, false)
+			tok := &OutToken{Str: s, Proofs: ps, From: w, Mint: mint, Amount: rest, Kind: "plain", To: other}
+			ww.Tokens = append(ww.Tokens, tok)
+			ww.op("w.receive plain sigall=false crossmint=false")
+			ww.W.WalletOp(other, ww.name("recvall"), nil, func(wl *wallet.Wallet) {
+				t, _ := cashu.DecodeToken(s)
+				if _, e := wl.Receive(t, false); e == nil {
+					tok.Claimed = true
+				}
+			})
+		}
+	}
+	if ww.balanceAt(w, mint) == 0 {
+		ww.rc.S.Probe("c19_everything_spent_before_restore")
+	}
+	checked := ww.CheckCounters(0)
+	ww.restoreWallet(w, true, "everything spent")
+	rw := ww.Wallets[0]
+	checked = ww.CheckCounters(checked)
+	ww.op("w.mint(after restore)")
+	ww.W.WalletOp(rw, ww.name("after"), nil, func(wl *wallet.Wallet) {
+		q, e := wl.RequestMint(50, ww.mintURL(mint))
+		if e != nil {
+			return
+		}
+		if mq := ww.W.Book.Mint(mint).MQ[q.Quote]; mq != nil {
+			ww.W.LN.PayExternal(mq.Hash)
+		}
+		wl.MintTokens(q.Quote)
+	})
+	ww.CheckCounters(checked)
+	ww.restoreWallet(rw, false, "everything spent, second restore")
+	ww.rc.Nontrivial = true
 }
 
 func c19ManyOutputs(ww *WW, rotateAfter bool) {
